@@ -50,7 +50,8 @@ CLAIMS["C17"] = dict(
 CLAIMS["C04"] = dict(
    text="FileView::read_block (the single place where a surface is mapped onto a container file) is decided for every skip/leave/total and every "
         "sector number, per constant value of take produced by the container constructors; FilePresentedBlockwise maps sector n to byte offset 256n "
-        "and refuses partial sectors; container constructors (SSD/DSD/MMB view parameters) are separate obligations listed in evidence.",
+        "and refuses partial sectors; dump-sector's track/sector arguments are accepted iff they are decimal numbers within the geometry "
+        "(every argument string of <= 3 characters); container constructors (SSD/DSD/MMB view parameters) are NOT decided.",
    note="symbolic take stalls every back end (SAT, z3, cvc5 bv-as-int; recorded in DESIGN), so take ranges over the 13 values the constructors can produce",
    ref="5 C04", tech=TECH_CXX)
 CLAIMS["C06"] = dict(
@@ -78,8 +79,10 @@ CLAIMS["C13"] = dict(
 CLAIMS["C11"] = dict(
    text="bbcbasic_to_text: with stdout failing from an arbitrary call on (ISO C contract model: a call reports failure and sets the error indicator, "
         "or is buffered and fails at the final flush) decode_line fails with perror, and main returns non-zero with a diagnostic whenever output was lost. "
-        "dfs: exit-status kernel and extraction protocol where listed in evidence.",
-   note="byte-offset granularity abstracted to call granularity; glibc/libstdc++ buffering not modelled beyond the ISO contract", ref="5 C11", tech=TECH_C)
+        "dfs: the sector walk stops when the visitor reports a failed write, and extract-files returns success only if every open/write/close "
+        "of every output file succeeded (ofstream model failing nondeterministically).",
+   note="byte-offset granularity abstracted to call granularity; glibc/libstdc++ buffering not modelled beyond the ISO contract; dfs main()'s exit status "
+        "(flush and test of std::cout) is outside the claim (not encoded)", ref="5 C11 / 10", tech=TECH_C + "; dfs part: " + TECH_CXX)
 CLAIMS["C19"] = dict(
    text="Both build flavours of the BASIC decoder (NDEBUG as pinned, and assertions enabled where a failing assert is itself a reported property) are "
         "compared with the same oracle on the same symbolic inputs (lines, files, command lines): each equals the oracle, hence they equal each other.",
@@ -105,7 +108,8 @@ CLAIMS["C07"] = dict(
    text="Parsing kernels on arbitrary input, each with CBMC's bounds/pointer/overflow/shift checks on the translated real code and the "
         "assertion that no exception other than the documented ones escapes: HxC MFM header and track list on files of arbitrary size and "
         "contents, HFE header and opcode interpreter, catalogue-fragment validation, Opus disc catalogue, FileView/blockwise sector mapping, "
-        "Watford recognition, zlib error-code mapping. The command-level claim (exit status, message on stderr) is covered for the commands "
+        "Watford recognition, zlib error-code mapping, the --verbose HFE header dump, Volume/Catalog construction on unreadable catalogue sectors "
+        "(exceptions are thrown as objects). The command-level claim (exit status, message on stderr) is covered for the commands "
         "listed in evidence only.",
    note="bounded per kernel (evidence lists sizes); FM/MFM track decoder glue, gzip inflate loop and the full mount path are outside the claim (DESIGN.md 10)",
    ref="5 C07 / 10", tech=TECH_CXX)
@@ -123,7 +127,8 @@ CLAIMS["C14"] = dict(
    ref="5 C14 / 10", tech=TECH_CXX)
 CLAIMS["C18"] = dict(
    text="--verbose adds text on standard error only: smells_like_watford (format probing) and hexdump_bytes run with the flag off and on over the "
-        "same symbolic input give the same result, the same device reads and the same standard-output events.",
+        "same symbolic input give the same result, the same device reads and the same standard-output events; the verbose HFE header dump writes to "
+        "the given stream only and never reads past a header field.",
    note="the verbose paths of the HFE/HxC track decoders could not be decided (out of memory even for 2-byte inputs) and are outside the claim",
    ref="5 C18 / 10", tech=TECH_CXX)
 
